@@ -175,9 +175,41 @@ pub fn op_sign_leaves(n: usize, keyseed: &[u8], msg: &[u8], rngseed: u64) -> Str
     format!("{} {} {} {} {} {}", norm, (s * s * acc).to_bits(), cnt, lmin.to_bits(), lmax.to_bits(), r.verified)
 }
 
+/// `sign_stats N keyseed count rngseed`: `count` signatures with the injected generator; for each the normalised
+/// statistic t = sum over the 2n leaf samples of ((mu - z)/sigma_leaf)^2 / (2n), whose expectation is 1 when every
+/// leaf sample has the variance of its discrete Gaussian.  Output: count, mean(t), sample variance of t (bits).
+pub fn op_sign_stats(n: usize, keyseed: &[u8], count: usize, rngseed: u64) -> String {
+    let mut ts = Vec::with_capacity(count);
+    for i in 0..count {
+        let msg = (i as u64).to_le_bytes();
+        let r = sign_traced(n, keyseed, &msg, Some(rngseed.wrapping_add(i as u64)), false);
+        let last_z = r.events.iter().rposition(|e| e.tag == "sign.z").unwrap();
+        let start = r.events[..last_z].iter().rposition(|e| e.tag == "sign.z" || e.tag == "sign.salt").unwrap();
+        let mut acc = 0.0f64;
+        for e in &r.events[start..last_z] {
+            if e.tag == "ffsampling.leaf" {
+                let (mu0, mu1, sl) = (e.floats[0], e.floats[1], e.floats[2]);
+                let (z0, z1) = (e.ints[0] as f64, e.ints[1] as f64);
+                acc += ((mu0 - z0) / sl).powi(2) + ((mu1 - z1) / sl).powi(2);
+            }
+        }
+        ts.push(acc / (2.0 * n as f64));
+    }
+    let m = ts.iter().sum::<f64>() / count as f64;
+    let v = ts.iter().map(|t| (t - m) * (t - m)).sum::<f64>() / (count as f64 - 1.0).max(1.0);
+    format!("{} {} {}", count, m.to_bits(), v.to_bits())
+}
+
 pub fn generate_c10(tier: &str, rng: &mut Prng) -> Vec<Case> {
     let mut ops = vec![];
     let thorough = tier == "thorough";
+    // the leaf sampler itself, against the model and the specification's blocks (the ops of C09's quick tier, without
+    // the two inputs of the recorded finding F7, which is about centres no signature can produce)
+    for c in crate::c09::generate("quick", rng) {
+        if !(c.op.starts_with("sampler_z 4675730371722084352 ") || c.op.starts_with("sampler_z 13899102408576860160 ")) {
+            ops.push(c);
+        }
+    }
     for n in [512usize, 1024] {
         let keys = key_seeds(rng, if thorough { 4 } else { 2 });
         for ks in &keys {
@@ -186,14 +218,39 @@ pub fn generate_c10(tier: &str, rng: &mut Prng) -> Vec<Case> {
                 let msg = rng.bytes(ml);
                 ops.push(Case::new(format!("sign_leaves {n} {} {} {}", hex(ks), hex(&msg), rng.next() >> 1)));
             }
+            // aggregate second moment over many signatures of the same key
+            for _ in 0..(if thorough { 40 } else { 3 }) {
+                ops.push(Case::new(format!("sign_stats {n} {} {} {}", hex(ks), if thorough { 400 } else { 160 }, rng.next() >> 1)));
+            }
         }
     }
     ops
 }
 
 pub fn oracle_c10(op: &[&str], out: &str) -> Verdict {
+    if op[0] == "sign_stats" {
+        if out.starts_with("PANIC") {
+            return Verdict::Fail(format!("sign panicked: {out}"));
+        }
+        let p: Vec<&str> = out.split(' ').collect();
+        let cnt: f64 = p[0].parse().unwrap();
+        let m = f64::from_bits(p[1].parse().unwrap());
+        let v = f64::from_bits(p[2].parse().unwrap());
+        let n: f64 = op[1].parse().unwrap();
+        // t has mean 1 and variance about 1/n (a chi-square with 2n degrees of freedom divided by 2n); use the larger of
+        // the theoretical and the observed spread, and six standard errors
+        let se = (v.max(1.0 / n) / cnt).sqrt();
+        if (m - 1.0).abs() > 6.0 * se {
+            return Verdict::Fail(format!(
+                "second moment of the signatures is off: mean of sum((mu-z)/sigma_leaf)^2/(2n) over {} signatures = {m:.5} (expected 1, standard error {se:.5})",
+                cnt as u64
+            ));
+        }
+        return Verdict::Pass;
+    }
     if op[0] != "sign_leaves" {
-        return Verdict::NotApplicable;
+        // leaf sampler ops: judged as in C09 (a sampler that deviates from the specification's changes the law of the signatures)
+        return crate::c09::oracle(op, out);
     }
     if out.starts_with("PANIC") {
         return Verdict::Fail(format!("sign panicked: {out}"));
